@@ -402,6 +402,8 @@ def performed_part_from_match(
         notes=notes,
         controls=sustain_pedal + soft_pedal,
         sustain_pedal_threshold=pedal_threshold,
+        ppq=ppq,
+        mpq=mpq,
     )
     return ppart
 
